@@ -53,10 +53,14 @@ def cache_machine(stats, clauses, nontrivial, accepted_only):
                 raise
 
         @precondition(lambda self: self.case is not None and self.gen is None and len(self.case["pre"]) < 6)
-        @rule(tag=st.integers(0, 9), seti=st.integers(0, 2), word=st.integers(0, 7), v=VALUES)
-        def preload(self, tag, seti, word, v):
+        @rule(tag=st.integers(0, 9), seti=st.integers(0, 2), word=st.integers(0, 7), v=VALUES, w=st.sampled_from([4, 4, 1, 2]), sub=st.integers(0, 3))
+        def preload(self, tag, seti, word, v, w, sub):
             a = self._addr(tag, seti, 4 * word, 0) & ~3
-            self.case["pre"].append([a, v])
+            if w == 4:
+                self.case["pre"].append([a, v])
+            else:
+                off = sub % 4 if w == 1 else (sub % 2) * 2
+                self.case["pre"].append([a + off, v & ((1 << (8 * w)) - 1), w])
 
         @precondition(lambda self: self.case is not None)
         @rule(tag=st.integers(0, 9), seti=st.integers(0, 2), off=st.integers(0, 31), w=st.sampled_from([1, 2, 4, 4]), counted=st.booleans(),
